@@ -132,6 +132,8 @@ type W struct {
 	inconclusive string
 	lastSample   *Sample
 	top          *frame
+	traceDeep    bool
+	traceNames   map[string]int
 	traced       map[any]string // shared cells (*Value) and maps (*MapObj) whose accesses are logged
 	traceEvents  []string
 	inMapSet     bool
@@ -526,11 +528,28 @@ func shortSite(s string) string {
 	return s
 }
 
-// traceAccess logs an access to a traced shared cell.
+// traceAccess logs an access to a traced shared cell. An access to a whole
+// aggregate (struct copy through a value receiver, aggregate assignment) is an
+// access to each of its traced leaf fields.
 func (w *W) traceAccess(kind string, key any) {
-	if name, ok := w.traced[key]; ok {
-		w.traceEvents = append(w.traceEvents, kind+" "+name)
+	name, ok := w.traced[key]
+	if !ok {
+		return
 	}
+	if cell, isCell := key.(*Value); isCell && (kind == "R" || kind == "W") && (cell.k == KStruct || cell.k == KArray) {
+		fs := cell.p.([]Value)
+		n := 0
+		for i := range fs {
+			if _, sub := w.traced[&fs[i]]; sub {
+				w.traceAccess(kind, &fs[i])
+				n++
+			}
+		}
+		if n > 0 {
+			return
+		}
+	}
+	w.traceEvents = append(w.traceEvents, kind+" "+name)
 }
 
 // traceRegister registers every cell reachable from v (a struct value's fields,
@@ -562,6 +581,92 @@ func (w *W) traceRegister(cell *Value, name string, depth int) {
 			}
 		}
 	}
+}
+
+// traceEscape (deep tracing): the value v has just been stored into the traced
+// cell / map named base, so every object it refers to is now reachable by the
+// other thread; those objects are registered under names unique to the object
+// (so two different objects never share a cell name) and followed transitively.
+func (w *W) traceEscape(v Value, base string, depth int) {
+	if depth > 8 {
+		return
+	}
+	switch v.k {
+	case KPtr:
+		p := v.ptr()
+		if p == nil {
+			return
+		}
+		if _, seen := w.traced[p]; seen {
+			return
+		}
+		name := w.traceUnique(base + "*")
+		w.traceRegister(p, name, 0)
+		w.traceEscapeCell(p, name, depth+1)
+	case KIface:
+		if it := v.iface(); it != nil {
+			w.traceEscape(it.v, base, depth)
+		}
+	case KMap:
+		if v.p == nil {
+			return
+		}
+		m := v.p.(*MapObj)
+		if _, seen := w.traced[m]; seen {
+			return
+		}
+		name := w.traceUnique(base + "{}")
+		w.traced[m] = name
+		for _, e := range m.entries {
+			if !e.deleted {
+				w.traceEscape(e.val, name+"["+shortKey(e.hkey)+"]", depth+1)
+			}
+		}
+	case KSlice:
+		if v.p == nil {
+			return
+		}
+		s := v.p.([]Value)
+		if len(s) == 0 || len(s) > 64 {
+			return
+		}
+		if _, seen := w.traced[&s[0]]; seen {
+			return
+		}
+		name := w.traceUnique(base + "[]")
+		for i := range s {
+			w.traceRegister(&s[i], fmt.Sprintf("%s[%d]", name, i), 0)
+			w.traceEscapeCell(&s[i], name, depth+1)
+		}
+	case KStruct, KArray:
+		for i, f := range v.p.([]Value) {
+			w.traceEscape(f, fmt.Sprintf("%s.f%d", base, i), depth+1)
+		}
+	}
+}
+
+// traceEscapeCell follows the references held in an already registered cell.
+func (w *W) traceEscapeCell(cell *Value, name string, depth int) {
+	switch cell.k {
+	case KStruct, KArray:
+		fs := cell.p.([]Value)
+		for i := range fs {
+			w.traceEscapeCell(&fs[i], fmt.Sprintf("%s.f%d", name, i), depth)
+		}
+	case KPtr, KIface, KMap, KSlice:
+		w.traceEscape(*cell, name, depth)
+	}
+}
+
+func (w *W) traceUnique(name string) string {
+	if w.traceNames == nil {
+		w.traceNames = map[string]int{}
+	}
+	w.traceNames[name]++
+	if n := w.traceNames[name]; n > 1 {
+		return fmt.Sprintf("%s#%d", name, n)
+	}
+	return name
 }
 
 func shortKey(h string) string {
